@@ -266,7 +266,9 @@ def check(ck):
             ck.require(not ws, "C09.3", "%s: reader writes no field" % q.fn(fi), "read-only",
                        "the reader %s.%s modifies the stored outcome (`%s`): a second result()/wait() no longer reports the same "
                        "outcome" % (cname, m, ws[0][2] if ws else ""), q.loc(fi, ws[0][0]) if ws else "")
-    ck.floor("C09.3", 16)
+    from rules import c16 as _c16, common as _common
+    _common.import_rules(ck, _c16, {"C16.1": "C09.3"})
+    ck.floor("C09.3", 20)
 
     # ---- C09.4 FIFO ---------------------------------------------------------------------------------------------
     ck.require(cl.field_types.get("_queue") == "ext:queue.Queue", "C09.4", "threadpool.ThreadPool.__init__: self._queue", "queue.Queue",
